@@ -23,9 +23,10 @@ META = {
         "get_task_delay under a scripted clock: family A = all now (minute bases x "
         "second 0..59 x microsecond set) x all T = anchor+delta (7 anchors x whole "
         "seconds -3..+63 x microsecond offsets) spelled naive; family B = now grid x "
-        "boundary-focused T set x all 8 spellings (naive, datetime.timezone.utc, "
-        "pytz.UTC, fixed +05:45, fixed -03:30, zoneinfo Europe/Berlin, pytz "
-        "America/New_York localized, zoneinfo Australia/Lord_Howe). A case is distinct "
+        "boundary-focused T set x all 10 spellings (naive, datetime.timezone.utc, "
+        "pytz.UTC, fixed +05:45, fixed -03:30, fixed -00:44:30, zoneinfo Europe/Berlin, pytz and zoneinfo "
+        "America/New_York, zoneinfo Australia/Lord_Howe); the minute bases include the last minute before each "
+        "of three zones repeats an hour (now and T on different folds). A case is distinct "
         "by (now, T, spelling); non-trivial classes counted = distinct (case, delay) "
         "outcomes: past / left-for-later / delay d."
     ),
@@ -34,12 +35,15 @@ META = {
         "small-scope: instants outside the listed minute bases are not evaluated",
     ],
     "bounds": {
-        "quick": {"bases": 3, "micro": [0, 1, 499999, 500000, 999999]},
-        "thorough": {"bases": 8, "micro": [0, 1, 2, 499999, 500000, 500001, 999998, 999999]},
+        "quick": {"bases": 5, "micro": [0, 1, 499999, 500000, 999999]},
+        "thorough": {"bases": 11, "micro": [0, 1, 2, 499999, 500000, 500001, 999998, 999999]},
     },
 }
 
 BASES = [
+    dt.datetime(2025, 10, 26, 0, 59, tzinfo=UTC),  # last minute before Europe/Berlin repeats 02:00-03:00 (fold)
+    dt.datetime(2024, 11, 3, 5, 59, tzinfo=UTC),  # last minute before America/New_York repeats 01:00-02:00
+    dt.datetime(2025, 4, 5, 14, 59, tzinfo=UTC),  # last minute before Australia/Lord_Howe falls back by 30 min
     dt.datetime(2024, 3, 10, 6, 59, tzinfo=UTC),  # US DST start day, xx:59
     dt.datetime(2024, 12, 31, 23, 59, tzinfo=UTC),  # year roll-over
     dt.datetime(2025, 10, 26, 0, 30, tzinfo=UTC),  # EU DST end day
@@ -65,6 +69,8 @@ def _spellings():
         ("zi:Europe/Berlin", lambda t: t.astimezone(ZoneInfo("Europe/Berlin"))),
         ("pytz:America/New_York", lambda t: t.astimezone(ny)),
         ("zi:Australia/Lord_Howe", lambda t: t.astimezone(ZoneInfo("Australia/Lord_Howe"))),
+        ("zi:America/New_York", lambda t: t.astimezone(ZoneInfo("America/New_York"))),
+        ("-00:44:30", lambda t: t.astimezone(dt.timezone(-dt.timedelta(minutes=44, seconds=30)))),
     ]
 
 
